@@ -60,6 +60,10 @@ func c16Polluters() []string {
 		"如何新建异常？\n    输入M\n    （显示：“hijacked”）\n输出1",
 		"如何新建异常？\n    输入M\n    抛出异常：“again”！\n输出1",
 		"如何新建数值？\n    输入M\n    （显示：“hijacked”）\n输出1",
+		// the predefined type reached through another name: an input of a method, a variable
+		"如何乙？\n    输入甲\n    如何新建甲？\n        输入M\n        （显示：“hijacked”）\n    输出1\n输出（乙：异常）",
+		"令甲 = 异常\n如何新建甲？\n    输入M\n    （显示：“hijacked”）\n输出1",
+		"如何乙？\n    输入甲\n    如何新建甲？\n        输入M\n        （显示：“hijacked”）\n    输出1\n输出（乙：数值）",
 		"以数值（自增：1）\n输出数值",
 		"以数值（自减：2）\n输出数值",
 		"令甲 = 数值\n以甲（自增：5）\n输出甲",
